@@ -78,6 +78,22 @@ func genC17(seed uint64) *c17Scenario {
 		return s
 	}
 	s.Kind = "retry"
+	if r.Bool(0.1) {
+		// a long retry with a gentle multiplier: dozens of attempts before the cap is reached
+		s.MaxAttempts = 0
+		s.InitNs = int64(Pick(r, []time.Duration{1 * ms, 10 * ms}))
+		s.MaxNs = int64(Pick(r, []time.Duration{5 * sec, time.Hour}))
+		s.Mult = Pick(r, []float64{1.05, 1.1, 1.2})
+		s.Jitter = Pick(r, []float64{0, 0.1, 0.5})
+		n := 35 + r.Intn(30)
+		for i := 0; i < n; i++ {
+			s.Script += "t"
+			s.OpDur = append(s.OpDur, 0)
+		}
+		s.Script += "n"
+		s.OpDur = append(s.OpDur, 0)
+		return s
+	}
 	s.MaxAttempts = r.Intn(8)
 	s.InitNs = int64(Pick(r, []time.Duration{0, 1 * ms, 50 * ms, 1 * sec}))
 	s.MaxNs = int64(Pick(r, []time.Duration{10 * ms, 5 * sec, time.Hour}))
@@ -308,10 +324,10 @@ func PureBackoffCheck(seed uint64, n int) (checked int, bad []string) {
 		cfg := leader.BackoffConfig{
 			InitialBackoff:    Pick(r, []time.Duration{0, 1, 1 * ms, 50 * ms, 1 * sec, time.Hour}),
 			MaxBackoff:        Pick(r, []time.Duration{0, 1 * ms, 5 * sec, time.Hour, 1<<62 - 1}),
-			BackoffMultiplier: Pick(r, []float64{0, 0.5, 1, 1.5, 2, 10, 1e9}),
+			BackoffMultiplier: Pick(r, []float64{0, 0.5, 1, 1.01, 1.05, 1.2, 1.5, 2, 10, 1e9}),
 			Jitter:            Pick(r, []float64{0, 0.1, 0.5, 1}),
 		}
-		att := Pick(r, []int{0, 1, 2, 3, 10, 62, 63, 64, 1000, 1 << 30})
+		att := Pick(r, []int{0, 1, 2, 3, 10, 20, 31, 32, 33, 40, 62, 63, 64, 100, 200, 1000, 1 << 30})
 		got := leader.CalculateBackoff(cfg, att)
 		base := float64(cfg.InitialBackoff) * math.Pow(cfg.BackoffMultiplier, float64(att))
 		if base > float64(cfg.MaxBackoff) || math.IsInf(base, 1) {
